@@ -312,25 +312,24 @@ func (rn *rnode) rinsert(topic []byte, msg *message.PublishMessage) error {
 	if len(topic) == 0 {
 		l := msg.Len()
 
-		// Let's reuse the buffer if there's enough space
-		if l > cap(rn.buf) {
-			rn.buf = make([]byte, l)
-		} else {
-			rn.buf = rn.buf[0:l]
-		}
+		// The previous retained message may still be in use by connections that
+		// are delivering it to a new subscription (Retained() hands out the
+		// pointer, the delivery happens outside the lock). So the new message
+		// gets its own buffer and object instead of overwriting the old ones.
+		buf := make([]byte, l)
 
-		if _, err := msg.Encode(rn.buf); err != nil {
+		if _, err := msg.Encode(buf); err != nil {
 			return err
 		}
 
-		// Reuse the message if possible
-		if rn.msg == nil {
-			rn.msg = message.NewPublishMessage()
-		}
+		rmsg := message.NewPublishMessage()
 
-		if _, err := rn.msg.Decode(rn.buf); err != nil {
+		if _, err := rmsg.Decode(buf); err != nil {
 			return err
 		}
+
+		rn.buf = buf
+		rn.msg = rmsg
 
 		return nil
 	}
